@@ -21,7 +21,7 @@ RULE = ("(a) NetSpecs with every built-in distribution kind plus custom time- an
         "run must have raised.  Non-trivial: (a) >= 2 streams, >= 10 arrival events, >= 10 completed services; (b) bad draw reached.")
 ASSUMPTIONS = ["float equality is legitimate: oracle and code perform the same additions on the same operands",
                "pre-emptive restarts are audited by C11/C12, not here"]
-WALL = {"quick": 50, "thorough": 540}
+WALL = {"quick": 150, "thorough": 540}
 
 ALLOWED = [f for f in common.FULL if f not in ("prio_preempt", "prio_reroute", "sched_preempt", "sched_reroute", "slot_preempt")]
 
@@ -96,7 +96,7 @@ def subchecks(tier):
                        plans=("max_time",), horizon=(4.0, 10.0), budget=300, resumptions=(1, 1))
     return [
         system_subcheck("audit", prof, lambda spec: [SamplesAudit(spec)], nontrivial, classes=classes, obs=True, log=True,
-                        n={"quick": 2400, "thorough": 40000}, rule="logged samples vs arrival events, batch sizes and service records"),
-        SubCheck("inject", inject_execute, strategy=bad_spec(simple), n={"quick": 1600, "thorough": 20000}, kind="fault-injection",
+                        n={"quick": 7200, "thorough": 40000}, rule="logged samples vs arrival events, batch sizes and service records"),
+        SubCheck("inject", inject_execute, strategy=bad_spec(simple), n={"quick": 4800, "thorough": 20000}, kind="fault-injection",
                  rule="k-th draw of one stream returns an invalid value; reached => raised", is_spec=True),
     ]
